@@ -166,3 +166,108 @@ def activation_variant(root, cfg_prefix):
     ov = {"StartOfRun": {"deactivate": add("StartOfRun", "deactivate", "end_of_chain"), "activate": ", ".join(act)},
           "LeafToRoot": {"activate": add("LeafToRoot", "activate", "end_of_chain")}}
     return {"ini": cfg_prefix + "dipoles/dipole_motion.ini", "overrides": ov}
+
+
+
+def hard_disks_cells(rng):
+    """hard disks in cubic and non-cubic 2-D boxes with a cell-occupancy system and the SEQUENTIAL-direction end of chain: the velocity
+    is rotated off the axes, so components of both signs occur (the negative branch of the cell-boundary handler, wrap-around through
+    the lower edge); hard cores support arbitrary velocities. Complete .ini text. `hard_core`: runtrace rejects random initial states
+    with overlapping cores before the first leg (re-run with another seed)."""
+    cubic = rng.random() < 0.25
+    base = rng.choice([4.0, 5.0, 3.2])
+    lengths = [base, base] if cubic else [base, round(base * rng.choice([0.8, 1.25, 0.6, 1.5]), 3)]
+    cells = [rng.randint(3, 5), rng.randint(3, 5)]
+    n = rng.randint(4, 9)
+    radius = rng.choice([0.05, 0.1, 0.08])
+    txt = f"""[Run]
+mediator = single_process_mediator
+setting = hypercuboid_setting
+[HypercuboidSetting]
+system_lengths = {lengths[0]}, {lengths[1]}
+beta = 1
+dimension = 2
+[SingleProcessMediator]
+state_handler = tree_state_handler
+scheduler = {rng.choice(["heap_scheduler", "list_scheduler"])}
+activator = tag_activator
+input_output_handler = input_output_handler
+[TagActivator]
+taggers =
+    nearby_disk (excluded_cells_tagger),
+    surplus_disk (surplus_cells_tagger),
+    cell_boundary (cell_boundary_tagger),
+    sampling (no_in_state_tagger),
+    end_of_chain (active_global_state_in_state_tagger),
+    end_of_run (no_in_state_tagger),
+    start_of_run (no_in_state_tagger)
+internal_states = single_active_cell_occupancy
+[SingleActiveCellOccupancy]
+cells = cuboid_periodic_cells
+cell_level = 1
+maximum_number_occupants = {rng.choice([1, 2, -1])}
+[CuboidPeriodicCells]
+cells_per_side = {cells[0]}, {cells[1]}
+neighbor_layers = 1
+[NearbyDisk]
+create = nearby_disk, surplus_disk, cell_boundary
+trash = nearby_disk, surplus_disk, cell_boundary
+internal_state_label = single_active_cell_occupancy
+event_handler = hard_disk_event_handler (two_leaf_unit_event_handler)
+number_event_handlers = {4 * n}
+[SurplusDisk]
+create = nearby_disk, surplus_disk, cell_boundary
+trash = nearby_disk, surplus_disk, cell_boundary
+internal_state_label = single_active_cell_occupancy
+event_handler = hard_disk_event_handler (two_leaf_unit_event_handler)
+number_event_handlers = {4 * n}
+[HardDiskEventHandler]
+potential = hard_sphere_potential
+[HardSpherePotential]
+radius = {radius}
+[CellBoundary]
+create = nearby_disk, surplus_disk, cell_boundary
+trash = nearby_disk, surplus_disk, cell_boundary
+internal_state_label = single_active_cell_occupancy
+event_handler = cell_boundary_event_handler
+[Sampling]
+create = sampling
+trash = sampling
+event_handler = fixed_interval_sampling_event_handler
+[FixedIntervalSamplingEventHandler]
+sampling_interval = {rng.choice([0.7, 1.3, 2.5])}
+output_handler = dummy_output_handler
+[EndOfChain]
+create = end_of_chain, nearby_disk, surplus_disk, cell_boundary
+trash = end_of_chain, nearby_disk, surplus_disk, cell_boundary
+event_handler = single_independent_active_sequential_direction_end_of_chain_event_handler
+[SingleIndependentActiveSequentialDirectionEndOfChainEventHandler]
+chain_time = {rng.choice([1.1, 3.3, 0.6])}
+delta_phi_degree = {rng.choice([100.0, 37.5, 213.0, 90.0, 181.0])}
+[EndOfRun]
+create = end_of_run
+trash = end_of_chain, nearby_disk, surplus_disk, cell_boundary, sampling, start_of_run, end_of_run
+event_handler = final_time_end_of_run_event_handler
+[FinalTimeEndOfRunEventHandler]
+end_of_run_time = {rng.choice([40.0, 75.5, 120.0])}
+[StartOfRun]
+trash = start_of_run
+create = nearby_disk, surplus_disk, cell_boundary, sampling, end_of_chain, end_of_run
+event_handler = initial_chain_start_of_run_event_handler
+[InitialChainStartOfRunEventHandler]
+initial_direction_of_motion = {rng.randrange(2)}
+speed = {rng.choice([1.0, 1.0, 0.5, 2.0])}
+initial_active_identifier = {rng.randrange(n)}
+[TreeStateHandler]
+physical_state = tree_physical_state
+lifting_state = tree_lifting_state
+[InputOutputHandler]
+output_handlers = dummy_output_handler
+input_handler = random_input_handler
+[RandomInputHandler]
+random_node_creator = atom_random_node_creator
+number_of_root_nodes = {n}
+[AtomRandomNodeCreator]
+[DummyOutputHandler]
+"""
+    return {"ini": "generated/hard_disks_cells.ini", "ini_text": txt, "overrides": {}, "hard_core": radius}
